@@ -21,7 +21,7 @@ CLAIMED = {
     "C16": ("proof", "PARTIAL: for every schedule of the two-task transition system (main task and saver, any interleaving at suspension points, cancellation of the owning task, re-entry of the same object) leaving the context ends with the saver finished, the file holding the final registry, one disconnect and the raised exception (never the saver's CancelledError); every session has its saver; asyncio task semantics are encoded assumptions; cadence on a virtual clock"),
     "C17": ("proof", "PARTIAL: for every chunking and read timing the completed reads are the first reads of the complete stream (theorem about the readuntil model), lines in order, over-long / incomplete / undecodable as read errors, writes are the concatenated UTF-8 (strict UTF-8 round trip proved); StreamReader itself is third-party and validated against the model on every run"),
     "C18": ("proof", "PARTIAL: topic/line mapping theorems for every prefix and payload (publish form incl. the keyword arguments that reach the broker client, read back, echo decodes to the same message), subscriptions cover every command topic, FIFO and not-deaf theorems about the receive loop model; broker and aiomqtt replaced by a fake client"),
-    "C19": ("proof", "simulation theorem over whole histories within a major line (two gateways equal but for reported version / active protocol give the same outcomes and writes operation by operation, for every oracle and fault stream; which pairs agree is computed on the generated tables; the exception 22 is necessary); PARTIAL across 1.x -> 2.x: table facts only, equality of histories decided by running two real gateways and the model"),
+    "C19": ("proof", "simulation theorems over whole histories: within a major line (two gateways equal but for reported version / active protocol give the same outcomes and writes operation by operation, for every oracle and fault stream; which pairs agree is computed on the generated tables; the exception 22 is necessary) and across 1.x -> 2.x (same, as long as the 1.x run raises no missing-node/child error, without gateway-ready and version reports; every 2.x chain is the 1.x chain under no-op layers, computed on the tables)"),
 }
 NOT_YET = {}
 
